@@ -427,6 +427,7 @@ func runOpts(c *Ctx) {
 	// =============== OPTDELEG: delegation between option constructors keeps the labels
 	c.runOptDeleg()
 	c.runSubtableInstall()
+	c.runBuilderOrigin()
 
 	// =============== NILOPT-F: no nil *Func enters a converter list (the graph builders dereference every entry)
 	c.runNilFunc()
@@ -1699,6 +1700,24 @@ func (c *Ctx) runStructWalk(walker *ssa.Function) {
 		}
 		if len(allocs) == 1 {
 			val = allocs[0]
+		}
+	}
+	// every field that gets as far as having its Value built is recorded: no way from the block that builds the
+	// Value back to the field loop's header avoids the append (a `continue` after the Value was built — "this name
+	// was already recorded, replace the earlier entry" — drops a field from the ordered list)
+	if va, isAlloc := val.(*ssa.Alloc); isAlloc && va.Parent() == app.Parent() && va.Block() != app.Block() {
+		var header *ssa.BasicBlock
+		size := 1 << 30
+		for _, lp := range naturalLoops(app.Parent()) {
+			if lp.body[app.Block()] && lp.body[va.Block()] && len(lp.body) < size {
+				header, size = lp.header, len(lp.body)
+			}
+		}
+		if header != nil {
+			skips := core.ReachableAvoiding(va.Block(), header, map[*ssa.BasicBlock]bool{app.Block(): true})
+			c.R.Add("STRUCTWALK", "recorded-unconditionally", "structWalker", p.InstrPos(app), !skips,
+				"once a field's Value is built it is always appended to the ordered value list (one value per field, in declaration order)",
+				ternary(!skips, "the append is on every way to the next field", "the next field can be reached from "+p.InstrPos(va)+" without the append"))
 		}
 	}
 	fieldStores := map[string]ssa.Value{}
